@@ -24,6 +24,9 @@ def check(ctx):
     from ..dispatch import check_window_config
     check_window_config(ctx, rule="R5-requested-overlap-used")
     check_rounding_helper(ctx, ctx.repo)
+    # a plan is a function of its configuration: memoised intermediate results must be keyed by every parameter they depend on
+    from ..dispatch import check_cache_keys
+    check_cache_keys(ctx, rule="R8-memo-key-complete", files=("speckit/schedulers.py", "speckit/utils.py"))
     check_lpsd_wrapper(ctx, ctx.repo)          # LPSD spacing = LTF spacing with bmin=1, Lmin=1 forced
     check_jdes_search(ctx, ctx.repo)
     _force_wiring(ctx)
